@@ -215,7 +215,8 @@ def triFlip (f : Pt → Pt) : Geom → Bool × Bool
     -- 2^26, products below 2^52); larger integers round in the products like any other float
     let ints := [f a, f b, f c].all (fun p => isSmallInt p.x && isSmallInt p.y && rabs p.x < 33554432 && rabs p.y < 33554432)
     let mag := rabs ((f b).x - (f a).x) * rabs ((f c).y - (f a).y) + rabs ((f b).y - (f a).y) * rabs ((f c).x - (f a).x)
-    (cp < 0, !ints && rabs cp ≤ mag / 1099511627776)
+    -- … and products in the subnormal range lose everything below 2^-1074 (a product of two subnormals is ±0)
+    (cp < 0, !ints && rabs cp ≤ mag / 1099511627776 + 1 / (2 : Rat) ^ 1070)
   | .collection gs => gs.attach.foldl (fun acc ⟨g, _⟩ => let r := triFlip f g; (acc.1 || r.1, acc.2 || r.2)) (false, false)
   | _ => (false, false)
 
